@@ -79,7 +79,7 @@ def _random_requests(seed, n):
     kinds = ["info", "newfolder", "delete", "download", "upload", "setcomment", "rename", "move", "alias", "list", "dlfolder"]
     for _ in range(n):
         k = rnd.choice(kinds)
-        q = {"kind": k, "occ": rnd.randint(0, 1), "ur": 0, "path": path(), "name": comp(), "newname": [-1], "newpath": [-1], "comment": [-1]}
+        q = {"kind": k, "occ": rnd.randint(0, 1), "ur": 0, "sp": 0, "path": path(), "name": comp(), "newname": [-1], "newpath": [-1], "comment": [-1]}
         if k == "list":
             q["name"] = [-1]
             q["occ"] = 1
@@ -97,6 +97,8 @@ def _random_requests(seed, n):
                 q["name"] = rnd.choice([[120], [98, 46, 116, 120, 116], [97]])
         if rnd.random() < 0.25:      # the requester is confined to its own file root
             q["ur"], q["occ"] = 1, 0
+        if q["occ"] == 0 and rnd.random() < 0.3:   # the root is spelled non-canonically in the configuration
+            q["sp"] = rnd.randint(1, 3)
         out.append(q)
     return out
 
@@ -118,12 +120,12 @@ def _judge_c07(ctx, world, reqs, neg_thread=None, neg=None):
         kinds[q["kind"]] = kinds.get(q["kind"], 0) + 1
     ctx.notes["requests_by_kind"] = kinds
     ctx.sample({"request": {k: (_name(v) if isinstance(v, list) else v) for k, v in reqs[len(reqs) // 2].items()
-                            if k in ("kind", "occ", "ur", "path", "name", "newname", "newpath", "comment")}})
+                            if k in ("kind", "occ", "ur", "sp", "path", "name", "newname", "newpath", "comment")}})
     for v in viol:
         if v.get("prop") != "C07":
             continue
         st = v.get("step", {})
-        brief = {k: st.get(k) for k in ("kind", "occ", "ur", "path", "name", "newname", "newpath", "item", "ops", "steps", "reps", "disclosed") if k in st}
+        brief = {k: st.get(k) for k in ("kind", "occ", "ur", "sp", "path", "name", "newname", "newpath", "item", "ops", "steps", "reps", "disclosed") if k in st}
         ctx.add_violation(sig_c07(v), {"request": brief, "detail": v.get("detail")},
                           replay={"driver": "vh-files c07", "trace_module": "Trace_Files", "world": world[0], "request": {k: st.get(k) for k in st if k not in ("diff", "names")}})
     for d in drift:
@@ -269,7 +271,7 @@ def replay(ctx, prop, rp):
     ctx.build(name="vh-files")
     r = rp.get("replay") or {}
     if prop == "C07":
-        keep = ("kind", "occ", "ur", "path", "name", "newname", "newpath", "comment", "item", "ops", "steps")
+        keep = ("kind", "occ", "ur", "sp", "path", "name", "newname", "newpath", "comment", "item", "ops", "steps")
         _judge_c07(ctx, [r["world"]], [{k: v for k, v in r["request"].items() if k in keep}])
     else:
         _judge_c11(ctx, [r["script"]], 0)
